@@ -876,6 +876,89 @@ WEIRD_SOURCES = [
 ]
 
 
+# operator / destructuring patterns against matching and non-matching values (declaration inside try/catch with a
+# following statement, and as an arm of a multi-arm switch that must fall through)
+PATTERNS = [
+    "p * 0", "0 * p", "p * 2", "2 * p", "p * (0-2)", "p * (1/2)", "p * q", "p * \"a\"", "p * null",
+    "p * (18446744073709551616-18446744073709551616)", "p * ((1/2)-(1/2))", "p * 9223372036854775807", "(p * 2) * 3",
+    "p + 1", "1 + p", "p + 9223372036854775807", "p + (0-9223372036854775807-1)", "(0-9223372036854775807-1) + p", "p + \"a\"", "p + null", "p + q", "(p + 1) + 1",
+    "-p", "-(p + 1)", "-(p * 2)", "p / q", "p / 2", "2 / p", "(p / q): int", "p / 0",
+    "p .+ q", "p +. q", "p .+ []", "[] +. p", "1 .+ q", "p +. 2", "(p .+ q) +. r", "p .+ (q .+ r)",
+    "1 < p < 9", "p < 9", "1 < p", "1 <= p <= 9", "1 < p <= q", "\"a\" < p < \"z\"", "p < q", "1 < p < q < 9", "p == 5", "p != 5", "null < p", "[1] < p < [9]", "1 < 2 < 3",
+    "[p, q]", "[p, ...q]", "[...p, q]", "[p, ...q, r]", "p: int", "p: str", "p: float", "p: list", "p: nosuchtype", "p: 5", "p: C14S",
+    "C14S(p, q)", "C14S(p)", "C14S(p, q, r)", "C14S(1, p)", "C14S(C14S(p, q), r)", "C14S", "c14a(p)",
+    "literally 5", "literally null", "literally p", "literally [1, 2]", "5", "\"a\"", "null", "[1, 2]", "[1, p]", "[literally 1, p]",
+    "1 or 2", "p or q", "[p, 1] or [1, p]", "(p: int) or (p: str)", "p and q", "(p: int) and (q: int)", "[p, q] and r", "(p and [q, r]) or s", "(p * 2) or (p + 1)", "(1 < p < 9) and (p * 2)",
+    "_", "[_, p]", "[_, _]", "(p, q)", "p, q", "p, (q, r)", "...p",
+]
+# parameter lists (defaults, splats, annotations, operator patterns) tried as `(\\PARAMS -> 1)(VALUE)` and `(...VALUE)`
+LAMBDA_PARAMS = ["p, q = 3", "p = 1, q = 2", "p, q = 1 // 0", "p = 1 // 0, q", "p = 1, q", "p, ...q", "...p, q", "...p, q = 2", "p: int, q: str = \"a\"",
+                 "[p, q], r = 5", "p * 2", "p * 0", "p + 1, q * 0", "C14S(p, q), r = 1", "p, [q, r] = [7, 8]", "-p", "p / q", "p .+ q", "1 < p < 9", "literally 5", "p or q", "_"]
+PATTERN_VALUES = [
+    "0", "1", "5", "6", "7", "(0-3)", "(0-9223372036854775807-1)", "9223372036854775807", "18446744073709551616", "(18446744073709551616-18446744073709551610)",
+    "(1/2)", "(7/2)", "((1/2)-(1/2))", "0.0", "2.5", "6.0", "(0.0/0.0)", "(1.0/0.0)", "(1+2i)", "(0.0*1i)", "null", "\"a\"", "\"\"", "\"abc\"",
+    "[]", "[1]", "[1,2]", "[1,\"a\"]", "[[1,2],3]", "[1,2,3]", "{}", "{1:2}", "C14S(1,[2])", "C14S(1,2)", "C14S(C14S(1,2),3)", "(1 to 2)", "(0 til 0)", "B[1]", "V(1,2)", "V(4,6)", "(\\x -> x)", "C14S",
+]
+
+
+def run_patterns(ctx):
+    pre = ["struct C14S (c14a, c14b)", "x0 := 5", "x1 := (0-3)", f"x{MARK} := 0"]
+    post = ["x0", "x1", f"x{MARK}"]
+    progs = []
+    for pat in PATTERNS:
+        for val in PATTERN_VALUES:
+            progs.append(("decl", pat, val, f"try ({pat} := {val}) catch x8 -> (x1 = 42)"))
+            progs.append(("switch", pat, val, f"try (x0 = switch ({val}) case 99 -> 9 case {pat} -> 1 case [{pat}] -> 3 case _ -> 2) catch x8 -> (x1 = 42)"))
+    for par in LAMBDA_PARAMS:
+        for val in PATTERN_VALUES:
+            progs.append(("call", par, val, f"try (x0 = (\\{par} -> 1)({val})) catch x8 -> (x1 = 42)"))
+            progs.append(("call", par, val, f"try (x0 = (\\{par} -> 1)(...{val})) catch x8 -> (x1 = 42)"))
+    res = common.run_prog([pre + [src, f"x{MARK} = 77"] + post for _, _, _, src in progs], timeout=20.0, fuel=50_000)
+    stats = {"patterns": len(PATTERNS), "values": len(PATTERN_VALUES), "programs": len(progs), "bound": 0, "raised_and_contained": 0, "syntax": 0,
+             "switch_arm_taken": {}, "statements": 0}
+    bad = []
+    np = len(pre)
+    for (ctxk, pat, val, src), r in zip(progs, res):
+        rr = r.get("results") or [r]
+        stats["statements"] += len(rr)
+        rec = dict(shape="pattern", program=f"{src}; x{MARK} = 77", pattern=pat, value=val, impl=[(x.get("status"), x.get("val") or x.get("msg")) for x in rr[np:np + 2]])
+        if r.get("status") in ("hang", "abort") or any(x.get("status") in ("panic", "hang", "abort") for x in rr) or len(rr) < np + 2 + len(post):
+            rec["what"] = "the implementation panicked / hung / aborted on a destructuring pattern inside try/catch"
+            bad.append(("property", rec))
+            continue
+        st = rr[np].get("status")
+        if st == "parse":
+            stats["syntax"] += 1
+            continue
+        x0, x1, mk = (rr[np + 2 + j].get("val") for j in range(3))
+        if st != "ok":
+            rec["what"] = "an error escaped try ... catch x8 -> ..."
+            bad.append(("property", rec))
+            continue
+        if mk != "I77":
+            rec["what"] = "the statement after the try did not run"
+            bad.append(("property", rec))
+            continue
+        if x1 == "I42":
+            stats["raised_and_contained"] += 1
+        else:
+            stats["bound"] += 1
+        if ctxk == "decl" and x0 != "I5":
+            rec["what"] = "a pattern declaration changed a variable it does not name (x0)"
+            bad.append(("property", rec))
+            continue
+        if ctxk == "call" and x1 != "I42" and x0 != "I1":
+            rec["what"] = "a call that did not raise did not return the body's value"
+            bad.append(("property", rec))
+            continue
+        if ctxk == "switch" and x1 != "I42":
+            stats["switch_arm_taken"][x0] = stats["switch_arm_taken"].get(x0, 0) + 1
+            if x0 not in ("I1", "I2", "I3"):
+                rec["what"] = "the switch neither took an arm nor raised"
+                bad.append(("property", rec))
+    return stats, bad
+
+
 def canon_strings_to_E(s):
     return re.sub(r'S"(?:[^"\\]|\\.)*"', "E", s)
 
@@ -1145,6 +1228,9 @@ def run(ctx):
     S = run_sweep(ctx)
     amodel, abad = run_alloc_model(ctx, runner)
     report_inject(ctx, abad)
+    pstats, pbad = run_patterns(ctx)
+    report_inject(ctx, pbad)
+    ctx.coverage["patterns"] = pstats
     sbstats, sbbad = run_stream_bounds(ctx)
     report_inject(ctx, sbbad)
     ctx.coverage["stream_bounds"] = sbstats
@@ -1153,7 +1239,7 @@ def run(ctx):
     sweep_coverage(ctx, S)
     ctx.coverage["inject"] = stats
     ctx.coverage["inject_disagreements"] = len(bad)
-    ctx.coverage["evaluations"] = S["sw"].calls + stats["programs"] + stats["raw_fault_programs"] + sbstats["calls"]
+    ctx.coverage["evaluations"] = S["sw"].calls + stats["programs"] + stats["raw_fault_programs"] + sbstats["calls"] + pstats["programs"]
     ctx.coverage["distinct_nontrivial"] = ctx.coverage["sweep_not_argument_count_errors"] + stats["raised_to_top"] + stats["caught_and_continued"]
     ctx.coverage["rule"] = ("one evaluation = one application of a global function to an argument tuple (sweep) or one fault-injected program; "
                             "non-trivial = the call got past the argument-count check / the program raised to the top or had a fault caught and continued")
@@ -1170,7 +1256,7 @@ def replay(ctx, rep):
     runner = common.standard_prelude(ctx)
     if "program" in rep:
         declared = sorted(INIT)
-        decls = [f"x{k} := {s_val(INIT[k])}" for k in declared]
+        decls = ["struct C14S (c14a, c14b)"] + [f"x{k} := {s_val(INIT[k])}" for k in declared]
         prog = rep["program"]
         stmts = decls + ([prog] if rep.get("shape") != "raw" else prog.split("; x%d = 77" % MARK)[:1] + [f"x{MARK} = 77"]) + [f"x{k}" for k in declared]
         r = common.run_prog([stmts], timeout=20.0, fuel=200_000)[0]
